@@ -106,7 +106,7 @@ _COV_RE = re.compile(r"^<(\w+) line \d+, col \d+ to line \d+, col \d+ of module 
 
 def run_tlc(spec, cfg, *, tag, workers=8, simulate=None, depth=None, seed=None, env=None,
             timeout=900, xmx="8g", xss=None, deque=False, coverage=True, extra=(), dfid=None,
-            collect_tags=("T",), keep_out=False):
+            collect_tags=("T",), keep_out=False, small=False):
     """Run TLC on spec (path relative to SPEC) with cfg; returns TLCResult.
 
     tag names the scratch dir under work/. Raises ToolError on timeouts and on TLC
@@ -114,7 +114,8 @@ def run_tlc(spec, cfg, *, tag, workers=8, simulate=None, depth=None, seed=None, 
     spec_path = spec if os.path.isabs(spec) else os.path.join(SPEC, spec)
     cfg_path = cfg if os.path.isabs(cfg) else os.path.join(SPEC, cfg)
     meta = workdir("tlc", tag, clean=True)
-    jopts = ["-XX:+UseParallelGC", f"-Xmx{xmx}"]
+    # small: a run of a few hundred states (trace validation): start-up time is all that matters
+    jopts = ["-XX:+UseSerialGC", "-XX:TieredStopAtLevel=1", f"-Xmx{xmx}"] if small else ["-XX:+UseParallelGC", f"-Xmx{xmx}"]
     if xss:
         jopts.append(f"-Xss{xss}")
     if deque:
